@@ -1,7 +1,7 @@
 (* Property C01: wire encoding of every message matches the specification.
    Statements only.  Tables and layouts: regenerated (Gen) vs transcribed
    specification (Spec.WireConsts); byte-level statements: for all field values. *)
-From VV Require Import Base.Bits Base.Rt Gen.GenConsts Gen.GenLayout Gen.GenFns Spec.WireConsts Proofs.WireProofs.
+From VV Require Import Base.Bits Base.Rt Gen.GenConsts Gen.GenLayout Gen.GenFns Spec.WireConsts Proofs.WireProofs Proofs.CodecProofs.
 Open Scope N_scope.
 
 (* every request number of the three request spaces, every header flag, every virtio / protocol
@@ -40,3 +40,48 @@ Print Assumptions C01_u32_roundtrip.
 Theorem C01_u64_roundtrip : forall v, v < 2 ^ 64 -> le_decode (le_encode 8 v) = v.
 Proof. exact u64_roundtrip. Qed.
 Print Assumptions C01_u64_roundtrip.
+
+(* whole structures: decoding what the regenerated writer produced gives back every field, for all values that fit
+   their fields (the layouts, offsets and widths are the regenerated ones) *)
+Theorem C01_header_roundtrip : forall v,
+  VhostUserMsgHeader_request v < 2 ^ 32 -> VhostUserMsgHeader_flags v < 2 ^ 32 -> VhostUserMsgHeader_size v < 2 ^ 32 ->
+  VhostUserMsgHeader_read (VhostUserMsgHeader_write v) 0 = v.
+Proof. exact header_roundtrip. Qed.
+Print Assumptions C01_header_roundtrip.
+Theorem C01_vring_state_roundtrip : forall v,
+  VhostUserVringState_index v < 2 ^ 32 -> VhostUserVringState_num v < 2 ^ 32 ->
+  VhostUserVringState_read (VhostUserVringState_write v) 0 = v.
+Proof. exact vring_state_roundtrip. Qed.
+Print Assumptions C01_vring_state_roundtrip.
+Theorem C01_vring_addr_roundtrip : forall v,
+  VhostUserVringAddr_index v < 2 ^ 32 -> VhostUserVringAddr_flags v < 2 ^ 32 -> VhostUserVringAddr_descriptor v < 2 ^ 64 ->
+  VhostUserVringAddr_used v < 2 ^ 64 -> VhostUserVringAddr_available v < 2 ^ 64 -> VhostUserVringAddr_log v < 2 ^ 64 ->
+  VhostUserVringAddr_read (VhostUserVringAddr_write v) 0 = v.
+Proof. exact vring_addr_roundtrip. Qed.
+Print Assumptions C01_vring_addr_roundtrip.
+Theorem C01_config_roundtrip : forall v,
+  VhostUserConfig_offset v < 2 ^ 32 -> VhostUserConfig_size v < 2 ^ 32 -> VhostUserConfig_flags v < 2 ^ 32 ->
+  VhostUserConfig_read (VhostUserConfig_write v) 0 = v.
+Proof. exact config_roundtrip. Qed.
+Print Assumptions C01_config_roundtrip.
+Theorem C01_memory_region_roundtrip : forall v,
+  VhostUserMemoryRegion_guest_phys_addr v < 2 ^ 64 -> VhostUserMemoryRegion_memory_size v < 2 ^ 64 ->
+  VhostUserMemoryRegion_user_addr v < 2 ^ 64 -> VhostUserMemoryRegion_mmap_offset v < 2 ^ 64 ->
+  VhostUserMemoryRegion_read (VhostUserMemoryRegion_write v) 0 = v.
+Proof. exact memory_region_roundtrip. Qed.
+Print Assumptions C01_memory_region_roundtrip.
+Theorem C01_inflight_roundtrip : forall v,
+  VhostUserInflight_mmap_size v < 2 ^ 64 -> VhostUserInflight_mmap_offset v < 2 ^ 64 ->
+  VhostUserInflight_num_queues v < 2 ^ 16 -> VhostUserInflight_queue_size v < 2 ^ 16 ->
+  VhostUserInflight_read (VhostUserInflight_write v) 0 = v.
+Proof. exact inflight_roundtrip. Qed.
+Print Assumptions C01_inflight_roundtrip.
+Theorem C01_log_roundtrip : forall v,
+  VhostUserLog_mmap_size v < 2 ^ 64 -> VhostUserLog_mmap_offset v < 2 ^ 64 -> VhostUserLog_read (VhostUserLog_write v) 0 = v.
+Proof. exact log_roundtrip. Qed.
+Print Assumptions C01_log_roundtrip.
+Theorem C01_transfer_state_roundtrip : forall v,
+  VhostUserTransferDeviceState_direction v < 2 ^ 32 -> VhostUserTransferDeviceState_phase v < 2 ^ 32 ->
+  VhostUserTransferDeviceState_read (VhostUserTransferDeviceState_write v) 0 = v.
+Proof. exact transfer_state_roundtrip. Qed.
+Print Assumptions C01_transfer_state_roundtrip.
